@@ -663,7 +663,9 @@ def run_xfer(c):
             pass
     logexc = len([e for e in log if e[0] == "logexc"])
     if ("spin",) in log:
-        ended = 0                   # the thread kept retrying a failing call and had to be stopped
+        # the thread kept retrying a failing call and had to be stopped from outside: on its own it would never
+        # have ended nor left its with-blocks
+        ended, closes, fclosed = 0, 0, 0
     uncaught = [u for u in uncaught if u != "_Spin"]
     return [closes, fclosed, ended, logexc, 1 if uncaught else 0]
 
